@@ -231,6 +231,34 @@ reg("C10", "exploration",
     "targets): the Known value on the root token must satisfy a sign-and-magnitude static assertion for that target.",
     "Floating values decidable only to 1e-11 relative (12 printed digits), judged by g++; UB expressions screened out; tokens without a Known value are counted; 12 known classes.")
 
+reg("C01", "exploration",
+    "bounded-exhaustive enumeration of small C/C++ functions with a program-execution oracle (compiled with value probes, UBSan trap mode plus ASan, every input vector executed)",
+    "Every function of grammar G1 (9 families: typed constant folding; parameters x operators x casts; condition shapes; narrow-type assignments, "
+    "compound assignments and ++/--; loops, switch; alias, array, struct, global, callee; symbolic relations; a C++ pass with references and a template "
+    "callee) is analysed by cppcheck --dump and executed on the full finite input domain (<=100 vectors). Every Known / Impossible integer fact and "
+    "every evaluable symbolic fact on an r-value occurrence must hold at every evaluation of every sanitizer-clean execution. Quick: 13k functions.",
+    "Small-scope. Possible / conditional / indirect / path facts, lvalue and declaration tokens are not judged. 20 known defect classes (integer "
+    "conversion and wrap-around, _Bool, ||, % negative, ?: with ||, reference alias, symbolic kill). Trusted: AST printer, probe macros, fact "
+    "interpreter, gcc as semantics.")
+reg("C02", "exploration",
+    "bounded-exhaustive enumeration of container-operation sequences with a program-execution oracle in C++ (libstdc++, probes logging size())",
+    "Every function of grammar G2 (construction forms x all sequences of <=k container operations) over vector, string, deque, list, set and array "
+    "is executed on n in {0..3} x t in {0,1}; size() at every container-variable occurrence must satisfy every Known / Impossible container-size fact there.",
+    "Iterator, moved and symbolic container facts are not judged. Thorough is deadline-capped. One known class (std::set uniqueness).")
+reg("C03", "exploration",
+    "bounded-exhaustive enumeration of condition shapes with a program-execution oracle on the full input domain",
+    "Every function of grammar G3 on two int parameters in {-2..3}, all 36 vectors: atom pairs x 9 two-condition shapes x modifiers; single conditions "
+    "after constants, in loops, as arguments; narrow-type, bit-mask and modulo comparisons; thorough adds 7 three-condition shapes. Every verdict of 13 "
+    "ids whose message asserts a truth value for a located expression must equal the value observed at every evaluation.",
+    "Non-claim ids are counted, not judged; no --inconclusive. Three known classes.")
+reg("C04", "exploration",
+    "bounded-exhaustive enumeration with a program-execution oracle plus exact allocation accounting and shadow init flags",
+    "Arithmetic, index, null and uninit families on the full domain, plus all straight-line resource programs with <=3 (quick) / <=4 (thorough) "
+    "operations over two pointers in C and C++. An error-severity, non-inconclusive finding of the definite-UB set is refuted iff its expression is "
+    "evaluated in a sanitizer-clean execution (Known blamed value) or no execution with any sanitizer event reaches it (Possible blamed value); leak, "
+    "double-free, use-after-free and mismatch findings are refuted iff the single execution is clean per accounting.",
+    "deallocret, memleakOnRealloc and non-sanitizer-visible ids are not judged. Three known classes.")
+
 ALL = ["C%02d" % i for i in range(1, 37)]
 
 
